@@ -85,6 +85,7 @@ structure PlanOK (c : QCfg) (q : PQState) (a : ASpec) (n : Nat) (p : AckPlanI) :
   hid : p.headId < a.acked + n
   rd : AtB c.S a.events q.w.persisted.length (a.acked + n) (p.readIdx, p.readOff)
   rid : p.readId = a.acked + n
+  hge : (qhdr c.S a.events (a.acked + n - 1)).1 ≤ p.headIdx
 
 theorem planOK_init (c : QCfg) (hP : 64 ≤ c.P) (q : PQState) (a : ASpec) (n : Nat) (p : AckPlanI)
     (hI : QInv c q a) (hn : n ≠ 0) (hp : q.ackPlanI c n = .ok p) : PlanOK c q a n p := by
@@ -101,13 +102,15 @@ theorem planOK_init (c : QCfg) (hP : 64 ≤ c.P) (q : PQState) (a : ASpec) (n : 
   obtain ⟨hS, h4⟩ := c.S_add hP
   have hsz : ∀ e ∈ a.events, e.length < 2 ^ 32 := fun e he => (hI.sz e he).2
   obtain ⟨K, k1, k2, k3, k4, k5⟩ := hH.head hFpos
-  obtain ⟨hnc, st, hst, hlt, K', g1, g2, g3, g4, g5, _, g8, g6⟩ :=
+  obtain ⟨hnc, st, hst, hlt, K', g1, g2, g3, g4, g5, g7, g8, g6⟩ :=
     ack_plan_C c.P c.S hS h4 a.events a.flushed q.w.persisted hI.crel hI.fle hFpos hsz q.headPos.1 K k1 k3
       (a.acked + n) (by omega) (by omega)
   simp only [hH.start, PQState.from, hnc, Bool.false_eq_true, if_false, hst] at hp
   simp only [Except.ok.injEq] at hp
   rw [← hp]
-  exact ⟨hn, by omega, rfl, hlt, ⟨K', g1, g2, g3, g4⟩, by rw [← g4]; exact g8 (by rw [k4]; omega), g6, rfl⟩
+  exact ⟨hn, by omega, rfl, hlt, ⟨K', g1, g2, g3, g4⟩, by rw [← g4]; exact g8 (by rw [k4]; omega), g6, rfl,
+    ack_head_ge c.P c.S hS h4 a.events a.flushed q.w.persisted hI.crel hI.fle hsz _ K' g1 g3 (a.acked + n)
+      (by omega) (by omega) g7⟩
 
 /-- a plan stays applicable when the producer makes more events durable -/
 theorem planOK_grow (c : QCfg) (q q' : PQState) (a a' : ASpec) (n : Nat) (p : AckPlanI)
@@ -126,9 +129,11 @@ theorem planOK_grow (c : QCfg) (q q' : PQState) (a a' : ASpec) (n : Nat) (p : Ac
   obtain ⟨K'', g1, g2, g3⟩ := chain_grow c.S (a.events ++ ext) a.flushed a'.flushed _ _ hCe hC' hfl hF' _ K' k1 k3
   refine ⟨hpl.hn, by rw [hack]; have := hpl.hle; omega, by rw [hhead]; exact hpl.hidx, by have := hpl.hlt; omega,
     ⟨K'', g1, by rw [g2]; exact k2, by rw [g2]; exact k3, by rw [g3]; exact k4⟩, by rw [hack]; exact hpl.hid, ?_,
-    by rw [hack]; exact hpl.rid⟩
-  rw [hack, hext]
-  exact AtB_mono c.S a.events ext _ _ _ _ hpl.rd (by have := hpl.hle; have := hI.fle; omega) hlen
+    by rw [hack]; exact hpl.rid, ?_⟩
+  · rw [hack, hext]
+    exact AtB_mono c.S a.events ext _ _ _ _ hpl.rd (by have := hpl.hle; have := hI.fle; omega) hlen
+  · rw [hack, hext, (qpos_take c.S a.events ext (a.acked + n - 1) (by have := hpl.hle; have := hI.fle; omega)).2.1]
+    exact hpl.hge
 
 /-- **applying a (possibly stale) plan** is simulated by the specification's `ack n` -/
 theorem sim_ackApply (c : QCfg) (q : PQState) (a a' : ASpec) (o : QOut) (fl : Bool) (n : Nat) (p : AckPlanI)
@@ -154,7 +159,7 @@ theorem sim_ackApply (c : QCfg) (q : PQState) (a a' : ASpec) (o : QOut) (fl : Bo
   obtain ⟨K', g1, g2, g3, g4⟩ := hpl.head
   refine ⟨rfl, hI.w, hI.fl, hI.cnt, hI.sz, ?_, ?_⟩
   · refine ⟨hH.tail, ?_, hH.tailSet, by simp [PQState.ackApply, hFpos], fun _ => hFpos, ?_, ?_, ?_, hH.totF,
-      by simp only [PQState.ackApply]; rw [hH.totA], by simp only; omega, ?_⟩
+      by simp only [PQState.ackApply]; rw [hH.totA], by simp only; omega, ?_, ?_⟩
     · simp only [PQState.ackApply, QHdr.startId, if_true]; exact hpl.rid
     · intro _
       simp only [PQState.ackApply, if_true]
@@ -170,6 +175,8 @@ theorem sim_ackApply (c : QCfg) (q : PQState) (a a' : ASpec) (o : QOut) (fl : Bo
     · simp only [PQState.ackApply]
       left
       exact hpl.hid
+    · right
+      exact hpl.hge
   · have hR := hI.r
     refine ⟨hR.inTx.trans hr', hR.bytes, hR.cons, hR.endId, ?_⟩
     have hc := hR.cur
